@@ -220,6 +220,31 @@ def _trace_op(self, frame, codeobj, codenum):
 _oi.ContainmentInterceptor.trace_op = _trace_op
 
 
+# E3b: b"%c" % <symbolic int> (dns.tokenizer.Token.unescape_to_bytes) is bytes([x]); CPython's bytes formatting
+# is C code and would realize x (one octet value per path).
+class _PercentC:
+    def __mod__(self, x):
+        if not (0 <= x <= 255):
+            raise OverflowError("%c arg not in range(256)")
+        return bytes([x])
+
+
+_orig_mod_trace_op = _oi.ModuloInterceptor.trace_op
+
+
+def _mod_trace_op(self, frame, codeobj, codenum):
+    left = frame_stack_read(frame, -2)
+    if type(left) is bytes and left == b"%c" and isinstance(frame_stack_read(frame, -1), SymbolicInt):
+        if codenum == _oi.BINARY_OP and _oi.frame_op_arg(frame) != 6:
+            return
+        frame_stack_write(frame, -2, _PercentC())
+        return
+    return _orig_mod_trace_op(self, frame, codeobj, codenum)
+
+
+_oi.ModuloInterceptor.trace_op = _mod_trace_op
+
+
 def _isdigit(self):
     cps = self._ch_codepoints
     if len(cps) == 0:
